@@ -183,6 +183,15 @@ class Gen:
                 prog.append(('assign', r.choice(gnames), self.expr(gnames, 2)))
         if r.random() < 0.35:
             prog.insert(r.randint(1 + nfun, len(prog)), self.rebinding_loop())
+        if len(self.funcs) >= 2 and r.random() < 0.3:
+            # an argument whose evaluation re-binds the very name being called: the call uses the binding in force when the call happens
+            f0, f1 = r.sample([f[0] for f in self.funcs], 2) if len({f[0] for f in self.funcs}) >= 2 else (self.funcs[0][0], self.funcs[0][0])
+            at = r.randint(1 + nfun, len(prog))
+            prog[at:at] = [('func', 'swp', [], False, [('expr', call('systemGlobalSet', sq(f0), ('var', f1))), log_stmt(sq('swapped')), ('return', num(1))]),
+                           log_stmt(call('stringNew', call('arrayNew', call(f0, call('swp'), num(2)), call(f0, num(3))))) if r.random() < 0.6 else
+                           ('assign', r.choice(gnames), call(f0, num(0), call('swp')))]
+            if f0 in ('xx', 'yy', 'tot', 'fn0', 'fn1'):
+                self.collision = True
         if script_lib_name:
             prog.append(log_stmt(call('stringNew', call(script_lib_name, num(4), num(9)))))
         prog.append(log_stmt(call('stringNew', call('arrayNew', ('var', 'xx'), ('var', 'yy'), ('var', 'tot'), ('var', 'aa'), ('var', 'bb'), ('var', 'rr'),
